@@ -43,9 +43,13 @@ C05Items == { F(1, 0, Euro1), F(0, 1, Euro2), F(0, 0, <<255>>), F(0, 0, <<172, 9
 
 C04FragItems == { F(2, 0, <<1>>), F(1, 0, <<97>>), F(0, 1, <<2>>), F(0, 0, <<>>), F(9, 1, <<7>>), F(10, 1, <<>>), F(1, 1, <<98>>), F(2, 1, <<>>) }
 
+\* invalid UTF-8 inside a fragmented text message: after an empty or non-empty first fragment, in a non-final continuation, followed by more frames
+C04Utf8FragItems == { F(1, 0, <<>>), F(1, 0, <<97>>), F(0, 0, <<255>>), F(0, 0, <<226, 40>>), F(0, 0, <<>>), F(0, 1, <<98>>), F(9, 1, <<7>>), F(2, 0, <<255>>) }
+
 \* ---- C08 / C14 / C09 / C13 -------------------------------------------------------------------------
 Reason123 == [i \in 1..123 |-> 97 + (i % 26)]
-C08Items == { F(8, 1, <<3, 232>> \o Reason123), F(1, 1, <<97>>), F(2, 0, <<1>>), F(0, 1, <<2>>), F(9, 1, <<7>>), F(8, 1, <<3, 232, 114>>), F(8, 1, <<>>), F(8, 1, <<15, 160>>) }
+\* (the fragmented message is a text message: a Close between its fragments must not be read as part of the text)
+C08Items == { F(8, 1, <<3, 232>> \o Reason123), F(1, 1, <<97>>), F(1, 0, <<99>>), F(0, 1, <<100>>), F(9, 1, <<7>>), F(8, 1, <<3, 232, 114>>), F(8, 1, <<>>), F(8, 1, <<15, 160>>) }
 C14Items == { F(9, 1, <<>>), F(9, 1, <<1>>), FB(9, 1, 125, 1), F(1, 0, <<97>>), F(0, 1, <<98>>), F(2, 1, <<3>>), F(8, 1, <<3, 232>>) }
 C09Items == { F(1, 1, <<97>>), F(2, 0, <<1>>), F(0, 1, <<2>>), F(9, 1, <<7>>), F(8, 1, <<3, 232>>), Part }
 C13Items == { F(1, 1, <<97>>), F(2, 1, <<1>>), F(9, 1, <<7>>), F(10, 1, <<>>), F(8, 1, <<3, 232>>), F(3, 1, <<>>) }
